@@ -12,6 +12,7 @@ import (
 	"sort"
 	"strconv"
 	"strings"
+	"time"
 
 	"github.com/mgtv-tech/redis-GunYu/config"
 	"github.com/mgtv-tech/redis-GunYu/pkg/redis/client"
@@ -280,4 +281,28 @@ func VfRenderWrite(e vfdoubles.LogEntry) (string, bool) {
 		return fmt.Sprintf("del %d %s", e.DB, VfHexList(ks)), true
 	}
 	return "", false
+}
+
+// VfGcStaleCp is cmd/syncer.go gcStaleCheckpoint's closure `gcStaleCp`
+// (the closure is not reachable from a test; the extractor records its source
+// text as fact c17_gcStaleCp and the control flow around it as c17_gc_frame, the
+// check compares both with the expectation).
+func VfGcStaleCp(cli client.Redis, runIdMap map[string]struct{}, stale time.Duration) {
+	data, err := GetAllCheckpointHash(cli)
+	if err != nil {
+		return
+	}
+	if len(data)%2 == 1 {
+		return
+	}
+	for i := 0; i < len(data)-1; i += 2 {
+		runId := data[i]
+		cpn := data[i+1]
+		_, exist := runIdMap[runId]
+		total, deleted, err := DelStaleCheckpoint(cli, cpn, runId, stale, exist)
+		_ = err
+		if !exist && total == deleted {
+			_ = DelCheckpointHash(cli, runId)
+		}
+	}
 }
